@@ -8,7 +8,7 @@ module Hashtbl = Stdlib.Hashtbl
    commit ch=<n> sh=<n> vals=<p,p,..> sigs=<tok,tok,..>     tok = a | n | <addr>:v | <addr>:i | <addr>:m
    cfq h=<n> chain=<n> hash=<n> vals=.. sigs=..             defines commit_for(h) iff the commit has quorum
    reset                                                    forgets commit_for
-   pipe nf=<n> metas=<e,e|e,..> rollups=<e,e|..>            meta e = h:chain:hash:wf:hasrollup ; rollup e = hash:uid:wf:audit:txs *)
+   pipe nf=<n> metas=<e,e|e,..> rollups=<e,e|..>            meta e = h:chain:hash:wf:hasrollup ; rollup e = hash:uid:wf:audit:txs:own *)
 open Util
 open QuorumModel
 open PipelineModel
@@ -63,7 +63,7 @@ let run ic oc =
             | _ -> failwith ("bad meta entry " ^ e)) (split ',' blob)) (split '|' (kv rest "metas")) in
         let rollups = List.map (fun blob -> List.map (fun e ->
             match String.split_on_char ':' e with
-            | [ x; uid; wf; au; txs ] -> { pr_blob = { rb_hash = n x; rb_id = n uid }; pr_wf = b wf; pr_audit = b au; pr_txs = n txs }
+            | [ x; uid; wf; au; txs; own ] -> { pr_blob = { rb_hash = n x; rb_id = n uid }; pr_wf = b wf; pr_audit = b au; pr_txs = n txs; pr_own = b own }
             | _ -> failwith ("bad rollup entry " ^ e)) (split ',' blob)) (split '|' (kv rest "rollups")) in
         let (((nm, nr), nv), outs) = pipeline commit_for (n (kv rest "nf")) metas rollups in
         Printf.fprintf oc "decoded headers=%s rollups=%s\n" (string_of_n nm) (string_of_n nr);
